@@ -198,12 +198,13 @@ func (p plainConn) CloseWrite() {} // different signature: does not satisfy the 
 
 // Listener is a virtual stream listener.
 type Listener struct {
-	Addr_    net.Addr
-	mu       sync.Mutex
-	queue    []net.Conn
-	closed   bool
-	Accepted int
-	TempErrs int // number of temporary errors Accept returns before connections
+	Addr_         net.Addr
+	mu            sync.Mutex
+	queue         []net.Conn
+	closed        bool
+	Accepted      int
+	AcceptedConns []net.Conn
+	TempErrs      int // number of temporary errors Accept returns before connections
 }
 
 func NewListener(addr net.Addr) *Listener { return &Listener{Addr_: addr} }
@@ -223,6 +224,7 @@ func (l *Listener) Accept() (net.Conn, error) {
 		c := l.queue[0]
 		l.queue = l.queue[1:]
 		l.Accepted++
+		l.AcceptedConns = append(l.AcceptedConns, c)
 		return c, nil
 	}
 	return nil, net.ErrClosed
